@@ -440,7 +440,10 @@ func (c *Client) SyncCollection(ctx context.Context, path string, query *SyncQue
 		p, err := resp.Path()
 		if err != nil {
 			if err, ok := err.(*internal.HTTPError); ok && err.Code == http.StatusNotFound {
-				ret.Deleted = append(ret.Deleted, p)
+				// A response may report the same status for several resources
+				for _, href := range resp.Hrefs {
+					ret.Deleted = append(ret.Deleted, href.Path)
+				}
 				continue
 			}
 			return nil, err
